@@ -437,6 +437,11 @@ func c13Items(r *obs.Run) []c13Item {
 						for _, y := range []string{"push.handoff.next", "finalise.enter"} {
 							items = append(items, c13Item{plan: c13Plan{W: w, Concurrent: true, Fault: c13Fault{kind, n}, Hold: &c12Hold{Writer: n, X: "write.return", Y: y}}})
 						}
+						if kind == "create" {
+							// the writer whose directory has just gone is parked before it tries to create its file until the
+							// next chunk has been handed off: two writers then fail while both are in flight
+							items = append(items, c13Item{plan: c13Plan{W: w, Concurrent: true, Fault: c13Fault{kind, n}, Hold: &c12Hold{Writer: n, X: "write.recv", Y: "push.handoff.next"}}})
+						}
 					}
 				}
 			}
@@ -475,7 +480,7 @@ func init() {
 		Level: "fault_enumeration",
 		Rule: "census of every temp-file creation, run-file write, sync, seek and read of multi-chunk workloads (2..5 chunks, both writer modes), then one run per fault point with exactly that operation failing (writes/reads through the verif run-file wrapper, creation by removing the sorter's directory, sync/seek by closing the run file behind the sorter, and again as a transient failure of that one fsync/lseek with the file left intact (descriptor swapped for a pipe end during the call); " +
 			"fsync/lseek also injected by strace into a hook-free child); in concurrent mode faults are combined with holds ordering the failing writer's return before/after the caller's next hand-off and Finalise. Oracle: no error reported by any Push/Finalise/Pull and (pulled != sorted input, or the fault is known to have taken effect) => violation. " +
-			"Residue: random C11 histories with AutoClean/AutoClear, checking the temporary directory after drain and after CleanUp. Non-trivial = the chosen operation was actually reached; distinct = (workload, mode, fault, hold) or history word",
+			"Two-cycle runs: the n-th write fails in the first cycle and, after Clear, again in the second, where it must be reported again. Residue: random C11 histories with AutoClean/AutoClear, checking the temporary directory after drain and after CleanUp. Non-trivial = the chosen operation was actually reached; distinct = (workload, mode, fault, hold) or history word",
 		Batches: func(t string) int {
 			if t == "thorough" {
 				return 16
